@@ -4,6 +4,10 @@ import refproto as rp
 import simnet
 from refserver import RefServer
 
+EXTRA_PROPS = ['C13Roles']
+
+EXTRACT = ['gen.c13roles']
+
 RULE = ("random listener configurations (0..4 listeners in each of the four classes early/ordinary x "
         "incoming/outgoing; type filters drawn from the real packet class hierarchy incl. Packet, the "
         "abstract bases and unrelated classes, 0..3 types each; a random subset raising IgnorePacket) x "
